@@ -363,3 +363,10 @@ pub fn vec_resize(v: &mut Vec<u8>, n: usize, val: u8) {
     }
     *v = nv;
 }
+
+/// Replacement for `OsStr::to_str` in harnesses that pass `&str` literals as
+/// paths: those are valid UTF-8 by construction, and std's validation loop
+/// over a string constant is unwound to the bound by CBMC on every call.
+pub fn stub_osstr_to_str(s: &std::ffi::OsStr) -> Option<&str> {
+    Some(unsafe { std::str::from_utf8_unchecked(s.as_encoded_bytes()) })
+}
